@@ -1240,6 +1240,10 @@ class Interp:
                             m = eb.pyvc_ext_method(self, obj, name)
                             if m is not None:
                                 return m
+                if obj.cls.declares_attr(name):
+                    # the class gives its instances this attribute, the harness that built the object did
+                    # not: a limit of the harness, not an AttributeError of the program
+                    raise Unsupported(f"attribute {name} of {obj.cls.name} is not set up by the verification harness")
                 raise PyRaise(ExcValue("AttributeError", (f"{obj.cls.name} object has no attribute {name}",)))
             return self.bind(v, obj)
         if isinstance(obj, ObjRef):
@@ -1287,6 +1291,27 @@ class Interp:
             return self.native_method(obj, name)
         if isinstance(obj, _TypingThing):
             return _TypingThing(f"{obj.name}.{name}")
+        if isinstance(obj, SSeq) and name == "append" and type(obj) is SSeq:
+            # a list built by a map-style loop over a symbolic sequence, then extended by one item
+            def append(it, a, k, seq=obj):
+                x = a[0]
+                old_n, old_elem = seq.n, seq.elem
+
+                def elem(i, x=x, old_n=old_n, old_elem=old_elem):
+                    i = T.lift(i, T.INT)
+                    if i is old_n:
+                        return x
+                    if T.is_const(i) and T.is_const(old_n):
+                        return x if T.cval(i) == T.cval(old_n) else old_elem(i)
+                    m = A.merge(T.eq(i, old_n), x, old_elem(i))
+                    if m is None:
+                        raise Unsupported("append of a value of another kind to a symbolic list")
+                    return m
+
+                seq.n, seq.elem = T.add(old_n, 1), elem
+                seq.desc = f"{seq.desc}+[item]"
+
+            return Builtin("sseq.append", append)
         raise Unsupported(f"attribute {name} of {type(obj).__name__}")
 
     def bind(self, v, obj):
